@@ -82,6 +82,32 @@ def srun {α : Type} (parts : List α) : SState → List Op → SState × List (
     let (s'', os) := srun parts s' ops
     (s'', o :: os)
 
+/-- `c[i] = a` (`__setitem__`): Python index semantics; `none` = IndexError.  Scores and performances keep ONE
+    list of parts that `len`, indexing and iteration all read. -/
+def setItem {α : Type} (parts : List α) (i : Int) (a : α) : Option (List α) :=
+  if 0 ≤ i then (if i.toNat < parts.length then some (parts.set i.toNat a) else none)
+  else if -i ≤ parts.length then some (parts.set (parts.length - (-i).toNat) a)
+  else none
+
+/-- a run in which the container may also be assigned to: the state carries the parts -/
+inductive Op2 (α : Type)
+  | op (o : Op)
+  | set (i : Int) (a : α)
+
+def step2 {α : Type} (ps : List α × State) : Op2 α → (List α × State) × Out α
+  | .op o => let (s', out) := step ps.1 ps.2 o; ((ps.1, s'), out)
+  | .set i a =>
+    match setItem ps.1 i a with
+    | some ps' => ((ps', ps.2), .length ps'.length)   -- assignment returns nothing; we report the (unchanged) length
+    | none => (ps, .indexError)
+
+def run2 {α : Type} : (List α × State) → List (Op2 α) → (List α × State) × List (Out α)
+  | ps, [] => (ps, [])
+  | ps, o :: os =>
+    let (ps', out) := step2 ps o
+    let (ps'', outs) := run2 ps' os
+    (ps'', out :: outs)
+
 /-- the outputs of the `next h` calls of a run, in order -/
 def nextOutputs {α : Type} (h : Nat) : List Op → List (Out α) → List (Out α)
   | Op.next h' :: ops, o :: os => if h' = h then o :: nextOutputs h ops os else nextOutputs h ops os
